@@ -880,6 +880,22 @@ def expected_names(client, server, client_hostkeys, server_hostkeys):
     return exp
 
 
+def printed_cases(output, head='case'):
+    """Values printed by TLC's PrintT as <<"case", ...>>, also when TLC
+    pretty-prints them over several lines."""
+    import re
+    from harness import tlc
+    out = []
+    for m in re.finditer(r'^<<\s*"%s"' % head, output, re.M):
+        p = tlc._P(output)
+        p.i = m.start()
+        try:
+            out.append(p.value())
+        except (ValueError, IndexError):
+            pass
+    return out
+
+
 def available_kex():
     from asyncssh.kex import get_kex_algs
     return [a.decode() for a in get_kex_algs() if not a.startswith(b'gss-')]
